@@ -220,7 +220,9 @@ fn held_objects<B: Backend + 'static>(opts: &Opts, rep: &mut Report) {
 /// password wraps whose cost parameters change from one operation to the next on the same thread:
 /// memory ladders (every KiB step up, down and mixed), time and parallelism steps, iteration counts
 fn parameter_ladders<B: Backend + 'static>(opts: &Opts, rep: &mut Report) {
-    if opts.shard != 7 % opts.nshards && opts.shard != 12 % opts.nshards && opts.only.is_none() {
+    // one shard for the ladders, one shard per backend for the large parameters
+    let big_slot = (9 + B::VER as usize + if B::FAMILY == Family::Ffi { 4 } else { 0 }) % opts.nshards;
+    if opts.shard != 7 % opts.nshards && opts.shard != big_slot && opts.only.is_none() {
         return;
     }
     let stream = format!("c05.{}.ladder", B::NAME);
@@ -244,6 +246,17 @@ fn parameter_ladders<B: Backend + 'static>(opts: &Opts, rep: &mut Report) {
         ladders.push([(8u64, 1u32), (8, 2), (8, 3), (16, 3), (16, 1), (9, 2), (8, 1)].iter().map(|&(k, t)| kib(k, t, 1)).collect());
         if B::NAME != "v4na" {
             ladders.push([(16u64, 1u32), (16, 2), (32, 4), (17, 1), (32, 2), (64, 8), (16, 1)].iter().map(|&(k, p)| kib(k, 1, p)).collect());
+        }
+    }
+    // large but legitimate cost parameters (a second shard; seconds each): whatever can be wrapped can be unwrapped
+    if (opts.shard == big_slot && opts.shard != 7 % opts.nshards) || opts.only.is_some() {
+        ladders.clear();
+        if B::VER % 2 == 1 {
+            let big: &[u32] = if opts.thorough() { &[100_000, 999_999, 1_000_000, 1_000_001, 2_000_000, 5_000_000] } else { &[100_000, 1_000_000, 1_000_001, 1_500_000] };
+            ladders.push(big.iter().map(|&i| pw_param_bytes(B::VER, i, 0, 1)).collect());
+        } else {
+            let big: &[(u64, u32)] = if opts.thorough() { &[(64 << 10, 1), (256 << 10, 1), (1 << 20, 1), (8, 64), (1024, 16)] } else { &[(64 << 10, 1), (256 << 10, 1), (8, 32), (512, 8)] };
+            ladders.push(big.iter().map(|&(k, t)| pw_param_bytes(B::VER, t, k * 1024, 1)).collect());
         }
     }
     for (li, ladder) in ladders.iter().enumerate() {
@@ -273,7 +286,57 @@ fn parameter_ladders<B: Backend + 'static>(opts: &Opts, rep: &mut Report) {
     }
 }
 
+/// tens of thousands of wrap/unwrap (seal/unseal) cycles on the same key objects in one process
+fn long_run<B: Backend + 'static>(opts: &Opts, rep: &mut Report) {
+    use paseto_core::version::{PkePublic, PkeSecret};
+    for (ki, &kind) in WKS.iter().enumerate() {
+        let slot = (B::VER as usize * 5 + ki + if B::FAMILY == Family::Ffi { 3 } else { 0 }) % opts.nshards;
+        if opts.shard != slot && opts.only.is_none() {
+            continue;
+        }
+        let n: u64 = match (kind, B::VER) {
+            (Wk::Seal, 1) => opts.size(150, 1500) as u64,
+            (Wk::Seal, 3) => opts.size(4000, 40_000) as u64,
+            (k, _) if k.is_pw() => opts.size(20_000, 100_000) as u64,
+            _ => opts.size(70_000, 300_000) as u64,
+        };
+        let stream = format!("c05.{}.{}.long-run", B::NAME, kind.name());
+        let mut rng = Rng::derive(opts.seed, &stream, 0);
+        let wk = local_key::<B>(&rng.arr());
+        let lk = local_key::<B>(&rng.arr());
+        let lk_raw = key_bytes(&lk);
+        let sk = secret_key::<B>(&B::gen_secret(&mut rng));
+        let sk_raw = key_bytes(&sk);
+        let (ps, pp) = B::gen_pke_pair(&mut rng);
+        let (Ok(psk), Ok(ppk)) = (key_from_bytes::<B, PkeSecret>(&ps), key_from_bytes::<B, PkePublic>(&pp)) else { continue };
+        let params = pw_params::<B>(&pw_param_bytes(B::VER, 1, 8192, 1));
+        let mut bad = 0u64;
+        for i in 0..n {
+            let ok = match kind {
+                Wk::PieLocal => guard(|| pie_wrap_local(&lk, &wk).and_then(|w| pie_unwrap_local(&w, &wk)).map(|k| k == lk_raw)),
+                Wk::PieSecret => guard(|| pie_wrap_secret(&sk, &wk).and_then(|w| pie_unwrap_secret(&w, &wk)).map(|k| k == sk_raw)),
+                Wk::PwLocal => guard(|| pw_wrap_local(&lk, b"pw", &params).and_then(|w| pw_unwrap_local::<B>(&w, b"pw")).map(|k| k == lk_raw)),
+                Wk::PwSecret => guard(|| pw_wrap_secret(&sk, b"pw", &params).and_then(|w| pw_unwrap_secret::<B>(&w, b"pw")).map(|k| k == sk_raw)),
+                Wk::Seal => guard(|| pke_seal(&lk, &ppk).and_then(|w| pke_unseal(&w, &psk)).map(|k| k == lk_raw)),
+            };
+            if !matches!(ok, Ok(Ok(true))) {
+                bad += 1;
+                if bad <= 3 {
+                    rep.violation(&format!("C05|{}|{}|fails-on-the-nth-use-of-a-key-object", B::NAME, kind.name()), json!({"backend": B::NAME, "kind": kind.name(), "use_number": i + 1, "of": n, "result": format!("{:?}", ok.map(|r| r.map_err(|e| err_kind(&e))))}));
+                }
+            }
+            if i % 512 == 0 {
+                heartbeat(&stream);
+            }
+        }
+        rep.case(&format!("{}.{}.long-run", B::NAME, kind.name()), fnv(stream.as_bytes()), true);
+        rep.count_n(&format!("{}.{}.long-run.cycles", B::NAME, kind.name()), n);
+        rep.sample_class(&format!("{}.{}.long-run", B::NAME, kind.name()), 1, || json!({"backend": B::NAME, "kind": kind.name(), "cycles_on_the_same_key_objects": n, "failures": bad}));
+    }
+}
+
 fn backend<B: Backend + 'static>(opts: &Opts, rep: &mut Report) {
+    long_run::<B>(opts, rep);
     related_secrets::<B>(opts, rep);
     parameter_ladders::<B>(opts, rep);
     held_objects::<B>(opts, rep);
@@ -422,7 +485,7 @@ pub fn run(opts: &Opts) {
     for_backends!(opts, backend, opts, &mut rep);
     rep.set(
         "rule",
-        json!("parameter ladders: password wraps on one thread whose cost parameters change step by step (memory 8..48 KiB in 1 KiB steps up and down, mixed sizes, time / parallelism / iteration steps), each a full round trip; held objects: key objects created once, then hundreds of wrap/unwrap/seal/unseal round trips each preceded on the same thread by 1-3 library calls that must fail (forged tokens, invalid keys, corrupted or wrongly keyed blobs, refused encoders); related secrets: per kind 32 recipients / wrapping keys / passwords that differ from a base in one byte each (low-order end first, incl. counter-like all-zero bases), wrapped and unwrapped back to back on one thread, then all blobs unwrapped forwards and backwards; cases = (backend, kind in {local/secret-wrap.pie, local/secret-pw, seal}, wrapped key, wrapping key / password+params / recipient) wrapped with the library's randomness, serialised, parsed, unwrapped; body length compared with the format's table; 'repeat' cases wrap one tuple N times to vary the RNG outcome (counted once in distinct); RSA-KEM ciphertexts / ephemeral keys with a leading zero byte are counted"),
+        json!("long run: per backend and kind one process performs 70 000 (password wraps 20 000, P-384 / RSA seals fewer) wrap + unwrap cycles on the same key objects; parameter ladders: (second shard: large cost parameters - 10^5..1.5*10^6 PBKDF2 iterations (thorough 5*10^6), Argon2 with 64-256 MiB (thorough 1 GiB) or 8-64 passes - each a full round trip) password wraps on one thread whose cost parameters change step by step (memory 8..48 KiB in 1 KiB steps up and down, mixed sizes, time / parallelism / iteration steps), each a full round trip; held objects: key objects created once, then hundreds of wrap/unwrap/seal/unseal round trips each preceded on the same thread by 1-3 library calls that must fail (forged tokens, invalid keys, corrupted or wrongly keyed blobs, refused encoders); related secrets: per kind 32 recipients / wrapping keys / passwords that differ from a base in one byte each (low-order end first, incl. counter-like all-zero bases), wrapped and unwrapped back to back on one thread, then all blobs unwrapped forwards and backwards; cases = (backend, kind in {local/secret-wrap.pie, local/secret-pw, seal}, wrapped key, wrapping key / password+params / recipient) wrapped with the library's randomness, serialised, parsed, unwrapped; body length compared with the format's table; 'repeat' cases wrap one tuple N times to vary the RNG outcome (counted once in distinct); RSA-KEM ciphertexts / ephemeral keys with a leading zero byte are counted"),
     );
     rep.finish(opts);
 }
